@@ -14,10 +14,12 @@ open Zio
 let q_of_ints a b : q = { qnum = z_of_int a; qden = pos_of_int b }
 let q0 = q_of_ints 0 1
 
-(* tolerances: |d - sqrt(exact)| <= rel_ulps * 2^-52 * d + abs_ulps * 2^-52 * M, M the largest
-   |ordinate| of the operands (at least 1) *)
+(* tolerance ("to within a few ulps"): |d - sqrt(exact)| <= rel_ulps * 2^-52 * d.
+   abs_ulps (units of 2^-52 * M, M the largest |ordinate| of the operands) is 0: before fix F91
+   (geom/alg_distance.go:distBetweenXYAndLine) the implementation needed abs_ulps = 1 and was off
+   by up to 1.7e5 ulps of d *)
 let rel_ulps = 4
-let abs_ulps = 16
+let abs_ulps = 0
 let two52 = 4503599627370496
 let q_rel = q_of_ints rel_ulps two52
 let q_abs_unit = q_of_ints abs_ulps two52
@@ -34,15 +36,6 @@ let type_tag (g : q geomT) = match g with
 
 let b01 b = if b then "1" else "0"
 
-(* an operand holds two areal leaves that share a point: the class of known finding F20 (overlay
-   face labelling with overlapping areal members inside ONE operand) *)
-let areal_overlap_within (g : q geomT) : bool =
-  let ys = g_polys g in
-  let rec pairs = function
-    | [] -> false
-    | y :: r -> List.exists (fun y' -> share_simple (GPoly y) (GPoly y')) r || pairs r in
-  pairs ys
-
 type dist = Undef | Panic | D of float
 
 let parse_dist s = match s with
@@ -51,7 +44,7 @@ let parse_dist s = match s with
 
 let timers : (string, float) Hashtbl.t = Hashtbl.create 8
 let timed k f = let t0 = Sys.time () in let r = f () in Hashtbl.replace timers k ((try Hashtbl.find timers k with Not_found -> 0.0) +. Sys.time () -. t0); r
-let max_rel_err = ref 0.0   (* observed |d - sqrt m| in units of 2^-52 * max(d, M), statistics only *)
+let max_rel_err = ref 0.0   (* observed |d - sqrt m| in units of 2^-52 * d (float estimate, statistics only) *)
 let max_rel_case = ref ""
 
 let () =
@@ -64,12 +57,28 @@ let () =
       count ("class_" ^ cls);
       try
         if Array.length f < 16 then raise (Parse_error "short line");
-        let a = zq_geom (parse_zdump f.(2)) in
-        let b = zq_geom (parse_zdump f.(3)) in
-        let c = zq_geom (parse_zdump f.(4)) in
+        (* general-position float64 stream: class f_<name>, ordinates as hex doubles, read exactly *)
+        let fl = String.length cls > 2 && String.sub cls 0 2 = "f_" in
+        let rd x = if fl then parse_fdump x else zq_geom (parse_zdump x) in
+        let a = rd f.(2) in
+        let b = rd f.(3) in
+        let c = rd f.(4) in
+        (* float64 case: common power-of-two scaling to integer ordinates (exact; speed only) *)
+        let (kscale, a, b, c) =
+          if fl then (match scale_to_integers [a; b; c] with (k, [a; b; c]) -> (k, a, b, c) | _ -> failwith "scale")
+          else (0, a, b, c) in
+        let qscale = q_pow2 kscale in
+        let fscale = ldexp 1.0 kscale in
         let valid = f.(5) = "111" in
         let ea = is_empty a and eb = is_empty b and ec = is_empty c in
         let tag = Printf.sprintf "cls=%s types=%s-%s" cls (type_tag a) (type_tag b) in
+        (* the quantifier admits a float64 pair only if the exact clearance (vertex to non-incident
+           edge, vertex to vertex) is at least 1e-6 x magnitude; excluded pairs are counted *)
+        let mag0 = magnitude a b in
+        let tol2 = qmult (q_of_ints 1 1_000_000_000_000) (qmult mag0 mag0) in
+        let admitted = not fl || (count "float_cases"; clearance_ok tol2 a b) in
+        if not admitted then begin count "float_excluded_clearance"; raise Exit end;
+        if fl then count "float_admitted";
         note_case (f.(2) ^ "|" ^ f.(3)) (not ea && not eb);
         count ("pair_" ^ type_tag a ^ "-" ^ type_tag b);
         if not valid then count "invalid_input";
@@ -88,7 +97,7 @@ let () =
         if f.(7) <> "P" && f.(7) <> b01 mi then corr "intersects" (Printf.sprintf "model=%s impl=%s" (b01 mi) f.(7));
         if f.(8) <> "P" && f.(8) <> b01 mi' then corr "intersects_swapped" (Printf.sprintf "model=%s impl=%s" (b01 mi') f.(8));
         (* the references *)
-        let small = nparts a + nparts b <= big_limit in
+        let small = not fl && nparts a + nparts b <= big_limit in
         let simple = timed "simple" (fun () -> share_simple a b) in
         let oracle =
           if small then begin
@@ -100,23 +109,27 @@ let () =
         if f.(7) <> "P" && f.(7) <> b01 oracle then
           spec "intersects_exact" (Printf.sprintf "impl=%s exact=%s" f.(7) (b01 oracle));
         if f.(7) <> f.(8) then spec "intersects_sym" (Printf.sprintf "ab=%s ba=%s" f.(7) f.(8));
-        let overlap_cls = if timed "overlap" (fun () -> areal_overlap_within a || areal_overlap_within b) then " same_operand_areal_overlap" else "" in
+        (* class of known finding F20 (overlay labelling with overlapping areal members inside ONE
+           operand), computed only when a metamorphic check against the overlay disagrees *)
+        let overlap_cls () = if f20_class a || f20_class b then " f20_class" else "" in
         (match f.(9) with
          | "1" | "0" -> if f.(7) <> "P" && f.(9) = f.(7) then
-             spec "intersects_vs_disjoint" (Printf.sprintf "intersects=%s disjoint=%s%s" f.(7) f.(9) overlap_cls)
-         | x -> spec "disjoint_fails" (Printf.sprintf "Disjoint gives %s%s" x overlap_cls));
+             spec "intersects_vs_disjoint" (Printf.sprintf "intersects=%s disjoint=%s%s" f.(7) f.(9) (overlap_cls ()))
+         | x -> spec "disjoint_fails" (Printf.sprintf "Disjoint gives %s%s" x (overlap_cls ())));
         (match f.(10) with
          | "1" | "0" -> if f.(7) <> "P" && f.(10) = f.(7) then
-             spec "intersects_vs_intersection" (Printf.sprintf "intersects=%s intersection_empty=%s%s" f.(7) f.(10) overlap_cls)
-         | x -> spec "intersection_fails" (Printf.sprintf "Intersection gives %s%s" x overlap_cls));
+             spec "intersects_vs_intersection" (Printf.sprintf "intersects=%s intersection_empty=%s%s" f.(7) f.(10) (overlap_cls ()))
+         | x -> spec "intersection_fails" (Printf.sprintf "Intersection gives %s%s" x (overlap_cls ())));
         (* ---- Distance *)
         let mag = magnitude a (GColl (XY, [b; c])) in
         let mag = if qle_bool mag (q_of_ints 1 1) then q_of_ints 1 1 else mag in
         let qabs = qmult q_abs_unit mag in
-        let magf = float_of_q mag in
-        let close d m = sqrt_close (q_of_float d) m q_rel qabs in
+        let magf = float_of_q mag /. fscale in
+        (* lattice: a few ulps; float64 stream: 1e-9 relative (the clearance bounds the conditioning) *)
+        let q_rel = if fl then q_of_ints 1 1_000_000_000 else q_rel in
+        let close d m = sqrt_close (qmult qscale (q_of_float d)) m q_rel qabs in
         let note_err d m where_ =
-          let e = Float.abs (d -. sqrt (float_of_q m)) /. (ulp_f *. Float.max d magf) in
+          let e = if d = 0.0 then 0.0 else Float.abs (d -. (sqrt (float_of_q m) /. fscale)) /. (ulp_f *. d) in
           if e > !max_rel_err then begin max_rel_err := e; max_rel_case := id ^ ":" ^ where_ end in
         (* the model value is computed once per unordered pair: dist2 y x == dist2 x y is theorem
            distance_sym of Props/C09.v, so Distance(B,A) is judged against dist2 a b as well *)
@@ -127,25 +140,29 @@ let () =
           | Undef, Some _ -> corr ("distance_" ^ name) "impl undefined, model defined"
           | D _, None -> corr ("distance_" ^ name) "impl defined, model undefined"
           | D d, Some m ->
-            note_err d m name;
+            if not fl then note_err d m name;
             if not (close d m) then
-              corr ("distance_" ^ name) (Printf.sprintf "impl=%.17g model_sqrt=%.17g" d (sqrt (float_of_q m))) in
+              corr ("distance_" ^ name) (Printf.sprintf "impl=%.17g model_sqrt=%.17g" d ((sqrt (float_of_q m) /. fscale))) in
         let md_ab = timed "model_dist" (fun () -> dist2 a b) in
         judge "ab" md_ab f.(11);
         judge "ba" md_ab f.(12);
-        let md_ac = timed "model_dist" (fun () -> dist2 a c) in
-        judge "ac" md_ac f.(13);
+        if not fl || clearance_ok tol2 a c then begin
+          let md_ac = timed "model_dist" (fun () -> dist2 a c) in
+          judge "ac" md_ac f.(13) end;
         (* the exact reference: zero iff the point sets share a point (witness arrangement; on large
            inputs the cheap reference), else the minimum over all pairs of boundary parts *)
         let rd = timed "ref_dist" (fun () -> dist2_ref_with oracle a b) in
         (match parse_dist f.(11), rd with
          | D d, Some m ->
            if not (close d m) then
-             spec "distance_exact" (Printf.sprintf "impl=%.17g exact_sqrt=%.17g" d (sqrt (float_of_q m)))
+             spec "distance_exact" (Printf.sprintf "impl=%.17g exact_sqrt=%.17g" d ((sqrt (float_of_q m) /. fscale)))
          | Undef, Some _ | D _, None ->
            spec "distance_defined" (Printf.sprintf "impl=%s exact=%s" f.(11) (match rd with None -> "undefined" | Some _ -> "defined"))
          | _ -> ());
         let dab = parse_dist f.(11) and dba = parse_dist f.(12) in
+        List.iter (fun x -> match parse_dist x with
+            | D d when not (d >= 0.0) -> fail id "SPEC" "distance_nonneg" (tag ^ Printf.sprintf " dist=%.17g" d)
+            | _ -> ()) [f.(11); f.(12); f.(13); f.(14)];
         let dac = parse_dist f.(13) and dbc = parse_dist f.(14) in
         (* symmetric, bit for bit *)
         if f.(11) <> f.(12) then spec "distance_sym" (Printf.sprintf "ab=%s ba=%s" f.(11) f.(12));
@@ -163,12 +180,12 @@ let () =
         (* never smaller than the distance of the envelopes *)
         (match dab, parse_dist f.(15) with
          | D d, D e ->
-           let tol = ulp_f *. (float_of_int rel_ulps *. d +. float_of_int abs_ulps *. magf) in
+           let tol = if fl then 1e-9 *. d else ulp_f *. (float_of_int rel_ulps *. d +. float_of_int abs_ulps *. magf) in
            if d +. tol < e then spec "distance_ge_envelope" (Printf.sprintf "dist=%.17g envelope_dist=%.17g" d e);
            (* the envelope distance itself, against the box of the control points *)
            (match parts_box a, parts_box b with
             | Some ba, Some bb -> if valid && not (close e (box_d2 ba bb)) then
-                corr "envelope_distance" (Printf.sprintf "impl=%.17g model_sqrt=%.17g" e (sqrt (float_of_q (box_d2 ba bb))))
+                corr "envelope_distance" (Printf.sprintf "impl=%.17g model_sqrt=%.17g" e (sqrt (float_of_q (box_d2 ba bb)) /. fscale))
             | _ -> ())
          | D _, Undef -> spec "distance_ge_envelope" "distance defined, envelope distance undefined"
          | _ -> ());
@@ -181,7 +198,7 @@ let () =
            let diam = ref 0.0 in
            Array.iter (fun (x1, y1) -> Array.iter (fun (x2, y2) ->
                let d = Float.hypot (x1 -. x2) (y1 -. y2) in if d > !diam then diam := d) pts) pts;
-           let diam = !diam in
+           let diam = !diam /. fscale in
            let rhs = dab +. diam +. dbc in
            if dac > rhs *. (1.0 +. 1e-12) +. 1e-9 *. magf then
              spec "distance_triangle" (Printf.sprintf "d(a,c)=%.17g > d(a,b)=%.17g + diam(b)=%.17g + d(b,c)=%.17g" dac dab diam dbc)
@@ -190,10 +207,11 @@ let () =
         if !samples < 5 && not ea && not eb && String.length line < 420 && (!cases mod 7 = 0) then begin
           incr samples; Printf.printf "SAMPLE\t%s\n" line end
       with
+      | Exit -> ()
       | Parse_error m -> fail id "CORR" "parse" (trunc m)
       | Failure m -> fail id "CORR" "driver" (trunc m)
       | Invalid_argument m -> fail id "CORR" "driver" (trunc m));
   Hashtbl.replace counters "max_err_ulps_x100" (int_of_float (100.0 *. !max_rel_err));
-  Printf.printf "NOTE\tmax_err\t%.3f units of 2^-52*max(d,M) at case %s\n" !max_rel_err !max_rel_case;
+  Printf.printf "NOTE\tmax_err\t%.3f units of 2^-52*d at case %s\n" !max_rel_err !max_rel_case;
   Hashtbl.iter (fun k v -> Printf.printf "NOTE\ttime\t%s\t%.2f\n" k v) timers;
   finish ()
